@@ -115,6 +115,9 @@ class EditWorld(object):
         self.values = {d.idx: np.asarray(d.value) for d in self.data}
         self.out_prior = {d.idx: ((d.outlier_prob, d.outlier_prob_not) if d.outlier_prob != 0 else None) for d in self.data}
         self.grid_size = self.data[0].grid_size
+        # from 1000 grid points the FFT convolution is used: rounding between two evaluation orders is ~1e-8 relative to the
+        # row peak, not ~1e-15 (C02 promises agreement only above ~1e-6 of the peak there)
+        self.atol = 1e-8 if self.grid_size[1] < 1000 else 1e-6
         self.tree_dist = TreeJointDistribution(FSCRPDistribution(cfg["alpha"]))
         self.alpha = cfg["alpha"]
         self.tree = Tree(self.grid_size)
@@ -542,13 +545,13 @@ class EditWorld(object):
                         continue
                     d = monitors.max_diff(na[k][j], nb[k][j])
                     self.stats["max_rebuild_diff"] = max(self.stats["max_rebuild_diff"], d if d == d else 0.0)
-                    if not monitors.close(na[k][j], nb[k][j]):
+                    if not monitors.close(na[k][j], nb[k][j], atol=self.atol):
                         self.problem({"sub": "stale", "what": ["log_p", "log_r"][j], "node": "root" if k == "root" else "clone"},
                                      "after op %d %s of %s differs from a fresh rebuild by %.3g (tree %s)" % (
                                          self.opi, ["log_p", "log_r"][j], "virtual root" if k == "root" else "clone %s" % sorted(k), d,
                                          models.canon_str(cn)))
             da, db = self.densities(t), self.densities(fresh)
-            if not monitors.close(da, db):
+            if not monitors.close(da, db, atol=self.atol):
                 self.problem({"sub": "stale", "what": "joint_density"}, "joint densities %r differ from a fresh rebuild's %r" % (da, db))
         if "c03" in self.oracles:
             f = m.forest()
@@ -562,7 +565,7 @@ class EditWorld(object):
             for name, got, want in (("log_p", d[0], want_m), ("log_p_one", d[1], want_1), ("both.log_p", d[2], want_m), ("both.log_p_one", d[3], want_1)):
                 diff = abs(got - want) if math.isfinite(got) and math.isfinite(want) else (0.0 if got == want else float("inf"))
                 self.stats["max_model_diff"] = max(self.stats["max_model_diff"], diff if diff == diff else 0.0)
-                if not (diff <= 1e-8 + 1e-9 * abs(want)):
+                if not (diff <= self.atol + 1e-9 * abs(want)):
                     self.problem({"sub": "model", "which": name, "has_outliers": bool(m.outliers), "top_level_clones_ge2": len(m.roots()) >= 2},
                                  "%s = %.12g, FS-CRP reference model gives %.12g (alpha=%g, tree %s)" % (name, got, want, self.alpha, models.canon_str(cn)))
         if self.twin is not None and "c15" in self.oracles:
